@@ -125,8 +125,10 @@ def isLuajitHex (s : Bytes) : Bool :=
   else
     let r := s.drop 2
     let ds := r.takeWhile isHexLower
-    let loc := if ds.length == r.length then 0 else ds.length
-    if loc != 0 then isSuffixLL (r.drop loc) else true
+    -- no hexadecimal digit behind 0x (0x. 0xl 0xu) is not a number (repair: index 0 used to mean "no suffix")
+    if ds.length == r.length then true
+    else if ds.length == 0 then false
+    else isSuffixLL (r.drop ds.length)
 
 /-- `parseLuajitNum`; `none` = the Go code indexes out of range -/
 def parseLuajit (s : Bytes) : Option (Option Int) :=
